@@ -277,6 +277,19 @@ def gen_cases(tier, seed):
         for su, sv in [(8, 5), (5, 8), (12, 6), (20, 4), (4, 40)]:
             for code in (0, 1):
                 cases.append(dict(kind='surf', su=su, sv=sv, skew=0 if code == 0 else 2, heights='coded:%d' % code))
+    # data variety: the same stair data far from the origin (geo-referenced coordinates), tiny, negative / fractional, and with
+    # a third coordinate; judged with a tolerance that follows from rounding (1e-12 relative to the coordinates) for the far data
+    for n in (8, 12):
+        for idx, bits in enumerate(stair_patterns(n, 4 if q else 16)):
+            base = stair_points(n, bits)
+            for name, f, tol in (('far', lambda i, c, t: c + 3.0e8, 1e-11), ('farmix', lambda i, c, t: 1.0e3 * c + 5.0e7 * (t + 1), 1e-11),
+                                 ('tiny', lambda i, c, t: 1.0e-6 * c, None), ('negfrac', lambda i, c, t: -0.37 * c + 0.1 * (t + 1), None),
+                                 ('farneg3d', lambda i, c, t: c - 2.0e8, 1e-11)):
+                pts = [[f(i, c, t) for t, c in enumerate(p + ([float(i % 3)] if name == 'farneg3d' else []))] for i, p in enumerate(base)]
+                cdict = dict(kind='curve', family='variety:' + name, pts=pts, degrees=[1, 2, 3, 5], approx_degrees=[2, 3], sparse_counts=True)
+                if tol:
+                    cdict['tol'] = tol
+                cases.append(cdict)
     # history dependence: default-option fits (keyword omitted) after fits that used centripetal=True
     for n in (8, 12):
         for idx, bits in enumerate(stair_patterns(n, 6)):
@@ -296,6 +309,8 @@ def case_weight(c):
         return c['n'] ** 3 * 2
     if k == 'surf':
         return c['su'] * c['sv'] * 40
+    if k == 'curve':
+        return len(c['pts']) ** 3 * 2
     return 50
 
 
@@ -387,10 +402,13 @@ def _curve(case, ctx):
     n, dim = len(pts), len(pts[0])
     fam = case.get('family', 'replay')
     scale = max(1.0, max(abs(c) for p in pts for c in p))
+    TOL = case.get('tol', globals()['TOL'])
     chords = [sum((x - y) ** 2 for x, y in zip(a, b)) for a, b in zip(pts, pts[1:])]
     equal_chords = len(set(chords)) == 1
     ctx.state('c%d:' % dim + ','.join('%g' % c for p in pts for c in p), nontrivial=not equal_chords)
     base = dict(kind='curve', family=fam, pts=pts)
+    if 'tol' in case:
+        base['tol'] = case['tol']
     only_op = case.get('op')
     degs = [case['degree']] if 'degree' in case else case.get('degrees') or list(range(1, n))
     cens = [bool(case['centripetal'])] if 'centripetal' in case else [False, True]
